@@ -14,7 +14,7 @@ namespace {
 
 enum { K_PUB, K_ELL, K_NK };
 const char *const KN[] = {"PUB", "ELL"};
-enum { H_DEFAULT, H_EXPLICIT, H_CUSTOM, H_FAILING, H_PREFIX, H_NH };   // ECDH: default(NULL)/sha256/custom/failing ; ellswift: bip324/prefix/custom/failing
+enum { H_DEFAULT, H_EXPLICIT, H_CUSTOM, H_FAILING, H_PREFIX, H_DELEG_PREFIX, H_DELEG_BIP324, H_NH };   // H_DELEG_*: a caller-supplied callback that hands over to the exported hash function   // ECDH: default(NULL)/sha256/custom/failing ; ellswift: bip324/prefix/custom/failing
 
 struct HashCtl { int fail = 0; const unsigned char *salt; int calls = 0; };
 int custom_ecdh(unsigned char *out, const unsigned char *x32, const unsigned char *y32, void *data) {
@@ -28,6 +28,13 @@ int custom_xdh(unsigned char *out, const unsigned char *x32, const unsigned char
     if (c->fail) return 0;
     ref::Sha256 h; h.write(c->salt, 32); h.write(x32, 32); h.write(b64, 64); h.write(a64, 64); h.finish(out);
     return 1;
+}
+
+struct DelegCtl { const unsigned char *prefix; int which; };
+int deleg_xdh(unsigned char *out, const unsigned char *x32, const unsigned char *a64, const unsigned char *b64, void *data) {
+    DelegCtl *c = (DelegCtl *)data;
+    return c->which == 0 ? secp256k1_ellswift_xdh_hash_function_prefix(out, x32, a64, b64, (void *)c->prefix)
+                         : secp256k1_ellswift_xdh_hash_function_bip324(out, x32, a64, b64, NULL);
 }
 
 struct XdhSim {
@@ -49,7 +56,8 @@ struct XdhSim {
         if (P.done) return;
         secp256k1_pubkey peer;
         if (m.bytes.empty()) { r.probe("empty_record_dropped"); return; }   // nothing to hand to the parser (a NULL input pointer would be caller misuse)
-        bool ok = L01(secp256k1_ec_pubkey_parse(frugal_ctx(use_static, ctx, "secp256k1_ec_pubkey_parse"), &peer, m.bytes.data(), m.bytes.size()));
+        Exact rx(m.bytes);
+        bool ok = L01(secp256k1_ec_pubkey_parse(frugal_ctx(use_static, ctx, "secp256k1_ec_pubkey_parse"), &peer, rx.p, rx.n));
         ref::Pt mp; bool mok = ref::parse_pubkey(m.bytes.data(), m.bytes.size(), &mp);
         r.cmp();
         if (ok != mok) { r.violate("C18", "parse", "secp256k1_ec_pubkey_parse", "library and model disagree on a received public key (" + std::to_string(m.bytes.size()) + " bytes) " + hex(m.bytes).substr(0, 70)); return; }
@@ -60,7 +68,7 @@ struct XdhSim {
         MonMark mk = mon_mark();
         int ret;
         if (S.hasher == H_DEFAULT) ret = L01(secp256k1_ecdh(frugal_ctx(use_static, ctx, "secp256k1_ecdh"), out.p(), &peer, P.sk, NULL, NULL));
-        else if (S.hasher == H_EXPLICIT || S.hasher == H_PREFIX) ret = L01(secp256k1_ecdh(frugal_ctx(use_static, ctx, "secp256k1_ecdh"), out.p(), &peer, P.sk, secp256k1_ecdh_hash_function_sha256, NULL));
+        else if (S.hasher == H_EXPLICIT || S.hasher == H_PREFIX || S.hasher == H_DELEG_PREFIX || S.hasher == H_DELEG_BIP324) ret = L01(secp256k1_ecdh(frugal_ctx(use_static, ctx, "secp256k1_ecdh"), out.p(), &peer, P.sk, secp256k1_ecdh_hash_function_sha256, NULL));
         else ret = L01(secp256k1_ecdh(frugal_ctx(use_static, ctx, "secp256k1_ecdh"), out.p(), &peer, P.sk, custom_ecdh, &ctl));
         r.cmp();
         if (!mon_quiet_since(mk)) { r.violate("C18", "callback", "secp256k1_ecdh", "callback on valid arguments: " + g_mon.last_illegal); return; }
@@ -93,15 +101,21 @@ struct XdhSim {
         if (memcmp(db, mb, 33) != 0) { r.violate("C18", "decode", "secp256k1_ellswift_decode", "decoded point differs from XSwiftEC(u, t) of the model for " + hex(m.bytes)); return; }
         { bool z = true, f = true; for (auto b : m.bytes) { if (b) z = false; if (b != 0xff) f = false; } if (z) r.probe("decode_u0_t0"); if (f) r.probe("decode_u_t_ge_p"); }
         int party = P.party;
+        // "party: boolean indicating which party we are: zero if we are a, non-zero if we are b": B may pass any non-zero value
+        static const int truthy[5] = {1, 2, 4, -1, 255};
+        int party_arg = party ? truthy[(size_t)(S.salt[0] % 5)] : 0;
+        if (party_arg != party) r.probe("party_b_passes_other_nonzero_value");
         const uint8_t *ea = party == 0 ? P.mine.data() : m.bytes.data(), *eb = party == 0 ? m.bytes.data() : P.mine.data();
         HashCtl ctl; ctl.salt = S.salt; ctl.fail = S.hasher == H_FAILING;
         Buf out(32);
         mk = mon_mark();
         int ret;
-        if (S.hasher == H_DEFAULT || S.hasher == H_EXPLICIT) ret = L01(secp256k1_ellswift_xdh(frugal_ctx(use_static, ctx, "secp256k1_ellswift_xdh"), out.p(), ea, eb, P.sk, party, secp256k1_ellswift_xdh_hash_function_bip324, NULL));
+        if (S.hasher == H_DEFAULT || S.hasher == H_EXPLICIT) ret = L01(secp256k1_ellswift_xdh(frugal_ctx(use_static, ctx, "secp256k1_ellswift_xdh"), out.p(), ea, eb, P.sk, party_arg, secp256k1_ellswift_xdh_hash_function_bip324, NULL));
         else if (S.hasher == H_PREFIX) { memcpy(node_prefix, S.prefix, 64);   // the node keeps one buffer for the per-session prefix and refills it before each call
-            ret = L01(secp256k1_ellswift_xdh(frugal_ctx(use_static, ctx, "secp256k1_ellswift_xdh"), out.p(), ea, eb, P.sk, party, secp256k1_ellswift_xdh_hash_function_prefix, node_prefix)); }
-        else ret = L01(secp256k1_ellswift_xdh(frugal_ctx(use_static, ctx, "secp256k1_ellswift_xdh"), out.p(), ea, eb, P.sk, party, custom_xdh, &ctl));
+            ret = L01(secp256k1_ellswift_xdh(frugal_ctx(use_static, ctx, "secp256k1_ellswift_xdh"), out.p(), ea, eb, P.sk, party_arg, secp256k1_ellswift_xdh_hash_function_prefix, node_prefix)); }
+        else if (S.hasher == H_DELEG_PREFIX || S.hasher == H_DELEG_BIP324) { DelegCtl dc{S.prefix, S.hasher == H_DELEG_BIP324};
+            ret = L01(secp256k1_ellswift_xdh(frugal_ctx(use_static, ctx, "secp256k1_ellswift_xdh"), out.p(), ea, eb, P.sk, party_arg, deleg_xdh, &dc)); }
+        else ret = L01(secp256k1_ellswift_xdh(frugal_ctx(use_static, ctx, "secp256k1_ellswift_xdh"), out.p(), ea, eb, P.sk, party_arg, custom_xdh, &ctl));
         r.cmp();
         if (!mon_quiet_since(mk)) { r.violate("C18", "callback", "secp256k1_ellswift_xdh", "callback on valid arguments: " + g_mon.last_illegal); return; }
         bool expect = P.sk_valid && S.hasher != H_FAILING;
@@ -110,8 +124,8 @@ struct XdhSim {
         if (!ret) { r.probe(P.sk_valid ? "xdh_hasher_failed" : "xdh_invalid_secret"); return; }
         ref::Pt sh = ref::mul(ref::U256::from_be(P.sk), mp);
         uint8_t x[32], want[32]; sh.x.to_be(x);
-        if (S.hasher == H_DEFAULT || S.hasher == H_EXPLICIT) ref::bip324_hash(ea, eb, x, want);
-        else if (S.hasher == H_PREFIX) ref::prefix_hash(S.prefix, ea, eb, x, want);
+        if (S.hasher == H_DEFAULT || S.hasher == H_EXPLICIT || S.hasher == H_DELEG_BIP324) ref::bip324_hash(ea, eb, x, want);
+        else if (S.hasher == H_PREFIX || S.hasher == H_DELEG_PREFIX) ref::prefix_hash(S.prefix, ea, eb, x, want);
         else { HashCtl c2; c2.salt = S.salt; custom_xdh(want, x, ea, eb, &c2); }
         r.cmp();
         if (memcmp(out.p(), want, 32) != 0) { r.violate("C18", "xdh_output", "secp256k1_ellswift_xdh", "output differs from hash(x(secret * Decode(theirs))) (received " + hex(m.bytes).substr(0, 40) + "..., party " + std::to_string(party) + ")"); return; }
